@@ -156,21 +156,29 @@ P_C08_RefBytes(e) ==
         LET r == e.post.hist[j].gens[i].refs[k] IN r.shape /\ r.present /\ r.c4ok
 
 \* C08: a child manifest is completely written (opened for writing) before its parent's manifest
-WIdx(e, h, name) ==
-  LET S == {i \in DOMAIN e.writes : e.writes[i].k = "open-w" /\ e.writes[i].p.area = "hist"
-                                     /\ e.writes[i].p.h = h /\ e.writes[i].p.rest = name}
+\* position at which a history file is complete under its final name: the rename that moves the finished
+\* temporary file into place (or, for a writer working in place, the open of the file itself), and the
+\* position at which writing it starts
+IsAt(x, h, name) == x.area = "hist" /\ x.h = h /\ x.rest = name
+DoneIdx(e, h, name) ==
+  LET S == {i \in DOMAIN e.writes : \/ (e.writes[i].k = "os.rename" /\ IsAt(e.writes[i].q, h, name))
+                                     \/ (e.writes[i].k = "open-w" /\ IsAt(e.writes[i].p, h, name))}
+  IN IF S = {} THEN 0 ELSE Max(S)
+StartIdx(e, h, name) ==
+  LET S == {i \in DOMAIN e.writes : e.writes[i].k = "open-w" /\ e.writes[i].p.area = "hist" /\ e.writes[i].p.h = h
+                                     /\ e.writes[i].p.rest \in {name, name \o ".tmp"}}
   IN IF S = {} THEN 0 ELSE Min(S)
 P_C08_Order(e, pre, post) ==
   \A j \in DOMAIN e.post.hist :
      LET b == e.post.hist[j] IN
      (b.h \in Wrote(pre, post)) =>
         LET g == b.gens[Len(b.gens)]
-            me == WIdx(e, b.h, g.name)
+            me == StartIdx(e, b.h, g.name)
         IN /\ me > 0
            /\ \A k \in DOMAIN g.refs :
-                 LET c == WIdx(e, g.refs[k].h, g.refs[k].name)
-                     cc == WIdx(e, g.refs[k].h, "ascmhl_chain.xml")
-                 IN c > 0 /\ c < me /\ cc > c /\ cc < me
+                 LET c == DoneIdx(e, g.refs[k].h, g.refs[k].name)
+                     cc == DoneIdx(e, g.refs[k].h, "ascmhl_chain.xml")
+                 IN c > 0 /\ c < cc /\ cc < me
 
 (***************************************************************************)
 (* Verdict for one line                                                    *)
